@@ -117,8 +117,10 @@ def abstract(w, sess, frames, t0, hs_len, res):
                         continue
                     low = b".".join(l.lower() for l in labels)
                     exact = b".".join(labels)
-                    nm = names.setdefault(low, len(names) + 1)
-                    vs = variants.setdefault(low, [])
+                    # Tunnel.tla's "name" is the QUESTION: every memory of the server (held query, answer cache, query
+                    # memory) compares the record type along with the name
+                    nm = names.setdefault((low, qt), len(names) + 1)
+                    vs = variants.setdefault((low, qt), [])
                     if exact not in vs:
                         vs.append(exact)
                     msg = {"k": "Recv", "id": m.id, "nm": nm, "cs": vs.index(exact), "kind": c["kind"], "useq": 0,
